@@ -233,6 +233,9 @@ pub enum Op {
     Fresh(u8, u64),
     /// `format!("{:?}", q)`: reported as the (slot, item, priority) triples in the order the text lists them
     Dbg,
+    /// deserialize the pairs through a `SeqAccess` that ANNOUNCES `hint` elements (whatever it then yields): formats with a
+    /// length prefix take that number from untrusted input
+    DeserHint(u64, Vec<E>),
     /// deserialize through a deserializer that answers `deserialize_seq` with `visit_unit` (serde's `UnitDeserializer`)
     DeserUnit,
     /// deserialize an ill-formed / ill-typed JSON text (variant `v` of a fixed table, built around the pairs): must be `Err`
@@ -336,6 +339,7 @@ impl Op {
             Fresh(..) => "fresh",
             Dbg => "dbg",
             DeserUnit => "deser_unit",
+            DeserHint(..) => "deser_hint",
             DeserBad(..) => "deser_bad",
             SerFail(_) => "ser_fail",
             TryReserveOom(..) => "try_reserve_oom",
@@ -366,6 +370,7 @@ impl Op {
             ViaRef(op) => format!("ref {}", op.line()),
             Fresh(c, cap) => format!("{} {} {}", n, c, cap),
             DeserBad(v, xs) => format!("{} {} {}", n, v, es(xs)),
+            DeserHint(h, xs) => format!("{} {} {}", n, h, es(xs)),
             SerFail(k) => format!("{} {}", n, k),
             TryReserveOom(exact, k) => format!("{} {} {}", n, *exact as u8, k),
             Push(e) | PushIncrease(e) | PushDecrease(e) => format!("{} {} {} {}", n, e.0, e.1, e.2),
@@ -473,6 +478,7 @@ impl Op {
             "fresh" => Fresh(t.u()? as u8, t.u()?),
             "dbg" => Dbg,
             "deser_unit" => DeserUnit,
+            "deser_hint" => DeserHint(t.u()?, t.es()?),
             "deser_bad" => DeserBad(t.u()? as u8, t.es()?),
             "ser_fail" => SerFail(t.u()?),
             "try_reserve_oom" => TryReserveOom(t.u()? != 0, t.u()?),
@@ -736,6 +742,16 @@ pub fn apply<H: HX>(q: &mut AnyQ<H>, op: &Op, lk: Lookup) -> String {
             let r: Result<AnyQ<H>, VErr> = match q.kind() {
                 Kind::Pq => PriorityQueue::<SItem, Pri, H>::deserialize(UnitDeserializer::<VErr>::new()).map(AnyQ::Pq),
                 Kind::Dpq => DoublePriorityQueue::<SItem, Pri, H>::deserialize(UnitDeserializer::<VErr>::new()).map(AnyQ::Dpq),
+            };
+            match r { Ok(n) => { *q = n; "ok".into() } Err(_) => "err".into() }
+        }
+        DeserHint(hint, xs) => {
+            use serde::Deserialize;
+            let vals: Vec<serde_json::Value> = xs.iter().map(|(k, pl, p)| serde_json::json!([{"name": key_name(*k), "payload": pl}, p])).collect();
+            let de = Announcing { vals, hint: *hint as usize };
+            let r: Result<AnyQ<H>, serde_json::Error> = match q.kind() {
+                Kind::Pq => PriorityQueue::<SItem, Pri, H>::deserialize(de).map(AnyQ::Pq),
+                Kind::Dpq => DoublePriorityQueue::<SItem, Pri, H>::deserialize(de).map(AnyQ::Dpq),
             };
             match r { Ok(n) => { *q = n; "ok".into() } Err(_) => "err".into() }
         }
@@ -1141,6 +1157,31 @@ fn deser_both<H: HX>(q: &mut AnyQ<H>, text: &str, k: Kind) -> String {
         }
         (Err(_), Err(_)) => "err".into(),
         _ => "text-and-hinted-paths-disagree".into(),
+    }
+}
+
+/// a deserializer for sequences only: it hands the visitor a `SeqAccess` that announces `hint` remaining elements and
+/// then yields `vals` (what a format with a length prefix does when the prefix does not match the payload)
+struct Announcing { vals: Vec<serde_json::Value>, hint: usize }
+struct AnnouncingSeq { it: std::vec::IntoIter<serde_json::Value>, hint: usize }
+impl<'de> serde::de::SeqAccess<'de> for AnnouncingSeq {
+    type Error = serde_json::Error;
+    fn next_element_seed<T: serde::de::DeserializeSeed<'de>>(&mut self, seed: T) -> Result<Option<T::Value>, Self::Error> {
+        match self.it.next() {
+            Some(v) => seed.deserialize(v).map(Some),
+            None => Ok(None),
+        }
+    }
+    fn size_hint(&self) -> Option<usize> { Some(self.hint) }
+}
+impl<'de> serde::Deserializer<'de> for Announcing {
+    type Error = serde_json::Error;
+    fn deserialize_any<V: serde::de::Visitor<'de>>(self, visitor: V) -> Result<V::Value, Self::Error> {
+        visitor.visit_seq(AnnouncingSeq { it: self.vals.into_iter(), hint: self.hint })
+    }
+    serde::forward_to_deserialize_any! {
+        bool i8 i16 i32 i64 i128 u8 u16 u32 u64 u128 f32 f64 char str string bytes byte_buf option unit unit_struct
+        newtype_struct seq tuple tuple_struct map struct enum identifier ignored_any
     }
 }
 
